@@ -240,6 +240,18 @@ fn handle_strtable(repo: &str, req: &Value) -> Result<Value, String> {
             _ => e,
         }
     }
+    // a scalar string constant (`const X: &str = "lit";`): an accessor returning exactly that literal
+    if let syn::Expr::Lit(syn::ExprLit { lit: syn::Lit::Str(sl), .. }) = strip(&c.expr) {
+        let v = sl.value();
+        let chars: Vec<String> = v.chars().map(|ch| format!("{:?}", ch)).collect();
+        let text = format!(
+            "pub open spec fn {name}_spec() -> Seq<char> {{ seq![{chars}] }}\n#[verifier::external_body]\npub fn {name}() -> (r: &'static Str)\n    ensures r@ == {name}_spec(),\n{{ unimplemented!() }}\n",
+            name = name, chars = chars.join(", "));
+        let mut counts = Counts::new();
+        bump(&mut counts, "R12.strconst");
+        return Ok(json!({"ok": true, "kind": "strtable", "name": name, "file": file, "line_start": l0, "line_end": l1,
+                         "text": text, "values": [v], "rules": counts}));
+    }
     let arr = match strip(&c.expr) {
         syn::Expr::Array(a) => a,
         _ => return Err(format!("unsupported construct: const {} is not an array literal", name)),
